@@ -80,6 +80,11 @@ def r1(model, rep):
                         and is_name(iff.body[0].value.func, hname) and not iff.orelse:
                     sites.append((lp, iff, iff.body[0].value))
     other_calls = [c for c in ast.walk(fn) if isinstance(c, ast.Call) and is_name(c.func, hname) and not any(c is s[2] for s in sites)]
+    if len(sites) == 1 and not other_calls:
+        which = "grouped" if is_name(sites[0][2].args[0], "graph") or True else ""
+        rep.violation("R1", construct, where, "only one loop adds components to the diagram: either the clustered or the unclustered components are never drawn", "one node loop only")
+        rep.instance("R1", construct + " every component added exactly once", where, False)
+        return
     if len(sites) != 2 or other_calls:
         raise AnalysisError("_diag: expected two guarded node-adding loops, found %d (+%d other calls)" % (len(sites), len(other_calls)))
     gnames = [x.targets[0].id for x in ast.walk(fn) if isinstance(x, ast.Assign) and isinstance(x.targets[0], ast.Name) and isinstance(x.value, ast.Call) and ast.unparse(x.value.func) == "pydot.Dot"]
@@ -523,8 +528,19 @@ def r5(model, rep):
             lo = const_int(a.comparators[0])
         if isinstance(b, ast.Compare) and isinstance(b.ops[0], ast.Gt) and is_name(b.left, P):
             hi = const_int(b.comparators[0])
-    if lo is None or hi is None or "'{:.2e}'.format(%s)" % F not in ast.unparse(branches[0][1][0]).replace('"', "'"):
+    if "'{:.2e}'.format(%s)" % F not in ast.unparse(branches[0][1][0]).replace('"', "'"):
         raise AnalysisError("_nice_float: out-of-range branch not recognised")
+    if lo is None or hi is None:
+        # the fallback test has another shape: compare it, as a formula, with the range the bands leave uncovered
+        Ts = [const_int(t.comparators[0]) for t, _ in branches[1:] if isinstance(t, ast.Compare)]
+        if not Ts or any(x is None for x in Ts):
+            raise AnalysisError("_nice_float: out-of-range branch not recognised")
+        lo, hi = Ts[0] - 3, Ts[-1] - 1
+        got = cond_formula(branches[0][0], {P: fr("pwr")})
+        want = cond_formula(ast.parse("pwr < %d or pwr > %d" % (lo, hi), mode="eval").body, {"pwr": fr("pwr")})
+        if not equiv(got, want):
+            ok = False
+            rep.violation("R5", "diagram._nice_float", where, "scientific notation is used when `%s`, but the prefix bands cover %d <= pwr <= %d" % (ast.unparse(branches[0][0]), lo, hi), "fallback test " + t0)
     prev = lo
     seen = []
     pw = fr("pwr")
